@@ -44,6 +44,8 @@ NOTES = {
     'C07-w4a': 'first pre-check: missed. Universe: ANY values that are indefinite-length TLVs under long-form identifiers',
     'C07-w4b': 'first pre-check: missed. C07: one-shot decode from a raw stream that hands out at most 16 octets per read, followed by a 40-octet tail',
     'C08-w4b': 'reported; a non-terminating change made the check itself run for hours (5 s of CPU per case): C08 now stops a worker after four hangs',
+    'C10-w4a': 'first pre-check: missed. C10 types: untagged CHOICE components found through a tag map (SET member, behind an OPTIONAL, nested in a CHOICE)',
+    'C10-w4b': 'first pre-check: missed. Constraint model: WITH COMPONENTS entry (field (c) PRESENT) = presence combined with a value constraint',
     'C11-w4a': 'first pre-check: missed. C11 corpus: single elements of 2**16+1, 2**20+1, 2**24+1 octets',
     'C11-w4b': 'first pre-check: missed by C11 (two decoders in turn on one source are C07 territory). C07 streaming clause: a new decoder per item on a source that cannot seek; the source must stay usable',
     'C12-w4a': 'first pre-check: missed. C12 part B: a "need more data" object handed to one consumer is not handed out by the other decoder and does not change later',
